@@ -204,6 +204,41 @@ def run(ctx):
                 # also dominate the return: compare with the return's own facts)
                 extra = [f for f in others if f not in atoms(pc)]
                 ok = ok or (len(guards) == 1 and not extra)
+            if not ok and rc is not None and len(calls) == 1:
+                # the same exemption computed another way (a flag returned with the class, a table of checked classes ...): for every way of
+                # selecting a class, the body check runs iff that class is not PropertiesResponse
+                from ..facts import cases, decide, simplify
+                from ..terms import pc_term
+
+                def fold_cls(t_):
+                    if not isinstance(t_, tuple):
+                        return t_
+                    t_ = tuple(fold_cls(x) for x in t_)
+                    if t_ and t_[0] == "cmp" and t_[1] in ("is", "is not", "==", "!=") and strip(t_[2])[0] == "global" and strip(t_[3])[0] == "global":
+                        same = strip(t_[2])[1] == strip(t_[3])[1]
+                        return ("const", same if t_[1] in ("is", "==") else not same)
+                    return t_
+
+                def cls_leaves(t_, conds):
+                    t_ = strip(t_)
+                    if t_[0] == "ite":
+                        yield from cls_leaves(t_[2], conds + [(t_[1], True)])
+                        yield from cls_leaves(t_[3], conds + [(t_[1], False)])
+                    else:
+                        yield t_, conds
+                G = pc_term(tuple(x for x in cs.ta.env_at[calls[0]].pc if x not in pc))
+                verdicts = []
+                for leaf_, conds_ in cls_leaves(rc, []):
+                    try:
+                        css = cases(tuple(conds_), cap=128)
+                    except ValueError:
+                        css = []
+                    for case in css:
+                        g_ = fold_cls(simplify(G, case))
+                        d_ = g_[1] if is_const(g_) else decide(g_, case)
+                        verdicts.append(leaf_[0] == "global" and d_ is (leaf_ != ("global", PROPS)))
+                ok = bool(verdicts) and all(verdicts)
+                detail["per_class_cases"] = len(verdicts)
             ctx.ob("C13.a", ci.qual, ok, "Response.validate(body) is skipped exactly when the selected class is PropertiesResponse",
                    func=ci.qual, file=file, node=calls[0] if calls else node, detail=detail,
                    fail="the body-check exemption is not exactly `selected class != PropertiesResponse` (widened, dropped or keyed on something else)")
@@ -220,6 +255,14 @@ def run(ctx):
                 if leaf == ("global", PROPS):
                     # definite facts on this leaf (conjunctions flattened) and on the path of this return
                     ids_ok = prop_ids([strip(a) for a in atoms(conds)] + [strip(a) for a in atoms(pc)])
+                    if not ids_ok:
+                        # an or-pattern / `a == X or a == Y`: in every way of reaching the leaf one of the two ids was matched
+                        from ..facts import cases
+                        try:
+                            cs_ = cases(tuple(conds) + tuple(pc), cap=128)
+                        except ValueError:
+                            cs_ = []
+                        ids_ok = bool(cs_) and all(prop_ids([strip(a) for a in case]) for case in cs_)
                     ctx.ob("C13.a", ci.qual, ids_ok, "PropertiesResponse (the exempt class) is selected only for response ids 0xB0 / 0xB1",
                            func=ci.qual, file=file, construct="response_class = PropertiesResponse",
                            fail="the exempt class PropertiesResponse is selected for other response ids: their body check is skipped")
@@ -261,31 +304,56 @@ def run(ctx):
     # ---------------------------------------------------------------- C13.c state is only touched by valid responses
     g = ctx.fn(GETR)
     gs = summarize(prog, g)
-    appends = [n for n in ast.walk(g.node) if isinstance(n, ast.Call) and isinstance(n.func, ast.Attribute) and n.func.attr in ("append", "extend", "insert", "add")]
-    handlers = [h for n in ast.walk(g.node) if isinstance(n, ast.Try) for h in n.handlers]
-    in_handler = {id(x) for h in handlers for x in ast.walk(h)}
-    ret_names = set()
-    for _pc, t, node, _st in gs.returns:
-        if node is not None and isinstance(node.value, ast.Name):
-            ret_names.add(node.value.id)
-    for a in appends:
-        if not (isinstance(a.func.value, ast.Name) and a.func.value.id in ret_names):
+    from ..helpers import with_helpers
+
+    def ite_leaves(x):
+        x = strip(x)
+        if x[0] == "ite":
+            return ite_leaves(x[2]) + ite_leaves(x[3])
+        return [x]
+    # the list the exchange returns is filled in _send_command_get_responses itself or in a helper a refactoring extracted from it
+    # (whose returned list it hands on): every function of that family is examined
+    for h_ in with_helpers(prog, g):
+        hs_ = gs if h_ is g else summarize(prog, h_)
+        appends = [n for n in ast.walk(h_.node) if isinstance(n, ast.Call) and isinstance(n.func, ast.Attribute) and n.func.attr in ("append", "extend", "insert", "add")]
+        handlers = [hd for n in ast.walk(h_.node) if isinstance(n, ast.Try) for hd in n.handlers]
+        in_handler = {id(x) for hd in handlers for x in ast.walk(hd)}
+        ret_names = set()
+        for _pc, t, node, _st in hs_.returns:
+            if node is not None and isinstance(node.value, ast.Name):
+                ret_names.add(node.value.id)
+        for a in appends:
+            if not (isinstance(a.func.value, ast.Name) and a.func.value.id in ret_names):
+                continue
+            ctx.count("valid_list_appends")
+            t = hs_.ta.terms_at.get(a.args[0]) if a.args else None
+            lv = ite_leaves(t) if t is not None else []
+            # (a helper that returns None for a rejected frame is fine: None is not a response and is guarded / crashes, never validates)
+            from_construct = any(call_is(x, f"{CMD}.Response.construct") for x in lv) and all(call_is(x, f"{CMD}.Response.construct") or x == ("const", None) for x in lv)
+            ctx.ob("C13.c", GETR, from_construct and id(a) not in in_handler,
+                   "only the result of a normally completed Response.construct is appended to the returned list",
+                   func=h_.qual, file=h_.module.rel, node=a,
+                   fail="something other than a successfully constructed response reaches the valid-response list "
+                        "(append in the handler, or of raw data)")
+    # the list written as a comprehension: [construct(d) for d in frames] / [r for r in (...) if r is not None]
+    def comp_elements(t_, depth=0):
+        t_ = strip(t_)
+        if t_[0] != "comp" or t_[1] not in ("list", "gen") or len(t_[3]) != 1 or depth > 4:
+            return None
+        var, src, _conds = t_[3][0]
+        if strip(t_[2]) == ("bound", var) and strip(src)[0] == "comp":
+            return comp_elements(src, depth + 1)          # a filter over another comprehension: its elements
+        return t_[2]
+    for _pc, t_, node_, _st in gs.returns:
+        el = comp_elements(t_) if node_ is not None else None
+        if el is None:
             continue
         ctx.count("valid_list_appends")
-        t = gs.ta.terms_at.get(a.args[0]) if a.args else None
-        def ite_leaves(x):
-            x = strip(x)
-            if x[0] == "ite":
-                return ite_leaves(x[2]) + ite_leaves(x[3])
-            return [x]
-        lv = ite_leaves(t) if t is not None else []
-        # (a helper that returns None for a rejected frame is fine: None is not a response and is guarded / crashes, never validates)
+        lv = ite_leaves(el)
         from_construct = any(call_is(x, f"{CMD}.Response.construct") for x in lv) and all(call_is(x, f"{CMD}.Response.construct") or x == ("const", None) for x in lv)
-        ctx.ob("C13.c", GETR, from_construct and id(a) not in in_handler,
-               "only the result of a normally completed Response.construct is appended to the returned list",
-               func=GETR, file=g.module.rel, node=a,
-               fail="something other than a successfully constructed response reaches the valid-response list "
-                    "(append in the handler, or of raw data)")
+        ctx.ob("C13.c", GETR, from_construct, "every element of the returned list is the result of a normally completed Response.construct",
+               func=GETR, file=g.module.rel, node=node_,
+               fail="something other than a successfully constructed response reaches the valid-response list")
     # supported flag
     sup = None
     for _pc, _t, _n, rst in gs.returns:
@@ -297,6 +365,27 @@ def run(ctx):
         from ..terms import replace
         rest = replace(sup, {x: ("const", "<valid list>") for x in subterms(sup) if strip(x) == rets[0]})
         sup_ok = not any(x[0] in ("param", "attr", "loopvar", "await", "iter", "top") for x in subterms(rest))
+    if not sup_ok and sup is not None and rets and len(set(rets)) == 1 and rets[0][0] == "loopvar" and strip(sup)[0] == "loopvar" and strip(sup)[2] == rets[0][2]:
+        # a flag raised in the loop exactly where a response is appended: False before the loop, True on the back edges that append, unchanged on the others
+        from ..facts import cases, simplify
+        flag, lst = strip(sup), rets[0]
+        loop_ = next((l for l in gs.loops if getattr(l, "lineno", None) == flag[2]), None)
+        info_ = gs.loops.get(loop_) if loop_ is not None else None
+        if info_ is not None and strip(info_["entry"].env.get(flag[1], ("top",))) == ("const", False):
+            okf = True
+            for st_ in info_["ends"] + info_["continues"]:
+                for case in (cases(st_.pc, cap=64) or [[]]):
+                    fv_ = strip(simplify(st_.env.get(flag[1], flag), case))
+                    lv_ = strip(simplify(st_.env.get(lst[1], lst), case))
+                    def paired(lv__, fv__, depth=0):
+                        lv__, fv__ = strip(lv__), strip(fv__)
+                        if lv__[0] == "ite" and fv__[0] == "ite" and lv__[1] == fv__[1] and depth < 8:
+                            return paired(lv__[2], fv__[2], depth + 1) and paired(lv__[3], fv__[3], depth + 1)       # merged after the same test
+                        appended = lv__[0] == "mut" and lv__[1] == "append" and strip(lv__[2]) == lst
+                        return (appended and fv__ == ("const", True)) or (lv__ == lst and fv__ == flag)
+                    if not paired(lv_, fv_):
+                        okf = False
+            sup_ok = okf
     ctx.ob("C13.c", GETR, sup_ok, "`supported` is a function of the number of valid responses of this exchange", func=GETR, file=g.module.rel,
            construct="self._supported = len(valid_responses) > 0", fail="`supported` is not derived from the valid-response list (raw frames count)")
     # every _update_state argument comes from _send_command_get_responses
@@ -325,6 +414,37 @@ def run(ctx):
         return src is not None and any(call_is(y, GETR) for y in subterms(src))
     on_ok = on is not None and any(from_getr(x) for x in subterms(on) if x[0] in ("comp", "loopvar", "await", "mut")) \
         and not any(call_is(x, f"{AC}._send_command") or (x[0] == "call" and x[1][0] == "ext" and x[1][1].endswith("._send_command")) for x in subterms(on))
+    if not on_ok:
+        # the same decision written as control flow: every return stores a constant, and which one is decided by the truth / length of
+        # the validated responses (`if not responses: self._online = False; return` ... `self._online = True`)
+        from ..facts import cases
+        per = []
+        for pc_, _t, n_, rst in rs.returns:
+            if n_ is None:
+                continue
+            v_ = rst.env.get(f"{r.params[0]}._online")
+            v_ = strip(v_) if v_ is not None else None
+            good = False
+            if v_ is not None and is_const(v_) and isinstance(v_[1], bool):
+                for case in (cases(pc_, cap=64) or [[]]):
+                    hit = False
+                    for a_ in case:
+                        a_ = strip(a_)
+                        neg_ = False
+                        while a_[0] == "un" and a_[1] == "not":
+                            a_, neg_ = strip(a_[2]), not neg_
+                        if a_[0] == "cmp" and call_is(strip(a_[2]), "len") and is_const(a_[3]):
+                            x_, truthy = strip(strip(a_[2])[2][0]), (a_[1], a_[3][1]) in ((">", 0), (">=", 1), ("!=", 0))
+                            empty = (a_[1], a_[3][1]) in (("==", 0), ("<", 1), ("<=", 0))
+                            if (truthy or empty) and from_getr(x_) and (truthy != neg_) == v_[1]:
+                                hit = True
+                        elif from_getr(a_) and (not neg_) == v_[1]:
+                            hit = True
+                    good = hit
+                    if not hit:
+                        break
+            per.append(good)
+        on_ok = bool(per) and all(per)
     ctx.ob("C13.c", r.qual, on_ok, "`online` is a function of the number of valid responses of this refresh", func=r.qual, file=r.module.rel,
            construct="self._online = len(responses) > 0", fail="`online` is not derived from the validated responses of this refresh")
     cm = prog.module(CMD)
